@@ -517,6 +517,7 @@ func checkC14(c *Ctx) {
 		c.Analysed["decisions_"+k] = v
 	}
 	c.MinCount("SYM", 18)
+	ruleSymDead(c, s)
 	_ = ssa.Function{}
 }
 
@@ -534,10 +535,319 @@ func init() {
 			Old: "c != ' ' && c != '\\n' && c != '\\r' {", New: "c != ' ' && c != '\\n' {", Expect: "SYM/parseHardLineBreakSpace"},
 		Control{Name: "isSpaceTabOrLineEnding-drops-CR", Props: []string{"C14"}, File: "parse.go",
 			Old: "return c == ' ' || c == '\\t' || c == '\\n' || c == '\\r'", New: "return c == ' ' || c == '\\t' || c == '\\n'", Expect: "SYM"},
+		Control{Name: "crlf-arm-after-single-byte-arm", Props: []string{"C14"}, File: "inlines.go",
+			Old: "\t\tcase len(spanText) >= 2 && spanText[len(spanText)-2] == '\\r' && spanText[len(spanText)-1] == '\\n':\n\t\t\ttrim = 2\n\t\tcase len(spanText) >= 1 && (spanText[len(spanText)-1] == '\\n' || spanText[len(spanText)-1] == '\\r'):\n\t\t\ttrim = 1\n",
+			New: "\t\tcase len(spanText) >= 1 && (spanText[len(spanText)-1] == '\\n' || spanText[len(spanText)-1] == '\\r'):\n\t\t\ttrim = 1\n\t\tcase len(spanText) >= 2 && spanText[len(spanText)-2] == '\\r' && spanText[len(spanText)-1] == '\\n':\n\t\t\ttrim = 2\n", Expect: "SYM-DEAD"},
 		Control{Name: "neg-ATX-switch-form", Props: []string{"C14"}, File: "blocks.go", Negative: true,
 			Old: "\tif i >= len(line) || line[i] == '\\n' || line[i] == '\\r' {\n\t\th.content = Span{Start: i, End: i}\n\t\treturn h\n\t}",
 			New: "\tif i >= len(line) {\n\t\th.content = Span{Start: i, End: i}\n\t\treturn h\n\t}\n\tswitch line[i] {\n\tcase '\\n', '\\r':\n\t\th.content = Span{Start: i, End: i}\n\t\treturn h\n\t}"},
 		Control{Name: "neg-helper-isLineEnding", Props: []string{"C14"}, File: "inlines.go", Negative: true,
 			Old: "c != ' ' && c != '\\n' && c != '\\r' {", New: "c != ' ' && !(c != ' ' && c != '\\t' && isSpaceTabOrLineEnding(c)) {"},
 	)
+}
+
+// ---------------------------------------------------------------------------------------------
+// SYM-DEAD: an arm of a tagless switch / if-else chain that classifies line endings must not be shadowed by earlier arms.
+
+type deadAtom struct {
+	kind    string // "eq" operand==const, "len" len(x) cmp k, "opaque"
+	operand string
+	konst   int64
+	op      token.Token
+	expr    ast.Expr
+}
+
+type deadEnv struct {
+	vals   map[string]int64 // operand -> value (or -1 for OTHER); "len:"+x -> length
+	opaque map[string]bool
+}
+
+func (s *symCtx) evalCond(e ast.Expr, env *deadEnv) bool {
+	switch x := e.(type) {
+	case *ast.ParenExpr:
+		return s.evalCond(x.X, env)
+	case *ast.UnaryExpr:
+		if x.Op == token.NOT {
+			return !s.evalCond(x.X, env)
+		}
+	case *ast.BinaryExpr:
+		switch x.Op {
+		case token.LAND:
+			return s.evalCond(x.X, env) && s.evalCond(x.Y, env)
+		case token.LOR:
+			return s.evalCond(x.X, env) || s.evalCond(x.Y, env)
+		case token.EQL, token.NEQ:
+			for _, pair := range [][2]ast.Expr{{x.X, x.Y}, {x.Y, x.X}} {
+				if k, ok := s.charConst(pair[1]); ok {
+					if _, isC := s.charConst(pair[0]); !isC {
+						v, known := env.vals[types.ExprString(pair[0])]
+						if known {
+							return (v == k) == (x.Op == token.EQL)
+						}
+					}
+				}
+			}
+		case token.GEQ, token.GTR, token.LSS, token.LEQ:
+			if l, k, op, ok := s.lenCmp(x); ok {
+				v := env.vals["len:"+l]
+				switch op {
+				case token.GEQ:
+					return v >= k
+				case token.GTR:
+					return v > k
+				case token.LSS:
+					return v < k
+				case token.LEQ:
+					return v <= k
+				}
+			}
+		}
+	}
+	return env.opaque[types.ExprString(e)]
+}
+
+// lenCmp normalises len(x) OP k / k OP len(x).
+func (s *symCtx) lenCmp(x *ast.BinaryExpr) (string, int64, token.Token, bool) {
+	isLen := func(e ast.Expr) (string, bool) {
+		if call, ok := e.(*ast.CallExpr); ok {
+			if id, ok := call.Fun.(*ast.Ident); ok && id.Name == "len" && len(call.Args) == 1 {
+				return types.ExprString(call.Args[0]), true
+			}
+		}
+		return "", false
+	}
+	if l, ok := isLen(x.X); ok {
+		if k, ok := s.charConst(x.Y); ok {
+			return l, k, x.Op, true
+		}
+	}
+	if l, ok := isLen(x.Y); ok {
+		if k, ok := s.charConst(x.X); ok {
+			flip := map[token.Token]token.Token{token.GEQ: token.LEQ, token.GTR: token.LSS, token.LSS: token.GTR, token.LEQ: token.GEQ}
+			return l, k, flip[x.Op], true
+		}
+	}
+	return "", 0, 0, false
+}
+
+// collectAtoms gathers the variables of a set of conditions.
+func (s *symCtx) collectAtoms(conds []ast.Expr) (operands map[string]map[int64]bool, lens map[string]int64, opaques map[string]bool) {
+	operands = map[string]map[int64]bool{}
+	lens = map[string]int64{}
+	opaques = map[string]bool{}
+	var walk func(e ast.Expr)
+	walk = func(e ast.Expr) {
+		switch x := e.(type) {
+		case *ast.ParenExpr:
+			walk(x.X)
+			return
+		case *ast.UnaryExpr:
+			if x.Op == token.NOT {
+				walk(x.X)
+				return
+			}
+		case *ast.BinaryExpr:
+			switch x.Op {
+			case token.LAND, token.LOR:
+				walk(x.X)
+				walk(x.Y)
+				return
+			case token.EQL, token.NEQ:
+				for _, pair := range [][2]ast.Expr{{x.X, x.Y}, {x.Y, x.X}} {
+					if k, ok := s.charConst(pair[1]); ok {
+						if _, isC := s.charConst(pair[0]); !isC {
+							op := types.ExprString(pair[0])
+							if operands[op] == nil {
+								operands[op] = map[int64]bool{}
+							}
+							operands[op][k] = true
+							return
+						}
+					}
+				}
+			case token.GEQ, token.GTR, token.LSS, token.LEQ:
+				if l, k, _, ok := s.lenCmp(x); ok {
+					if k+1 > lens[l] {
+						lens[l] = k + 1
+					}
+					return
+				}
+			}
+		}
+		opaques[types.ExprString(e)] = true
+	}
+	for _, c := range conds {
+		walk(c)
+	}
+	return
+}
+
+// deadArms returns the indices of conditions that can never be the first true one.
+func (s *symCtx) deadArms(conds []ast.Expr) ([]int, bool) {
+	operands, lens, opaques := s.collectAtoms(conds)
+	type variable struct {
+		name string
+		vals []int64
+		kind int
+	}
+	var vars []variable
+	total := 1
+	for op, ks := range operands {
+		v := variable{name: op, kind: 0, vals: []int64{-1}}
+		for k := range ks {
+			v.vals = append(v.vals, k)
+		}
+		vars = append(vars, v)
+		total *= len(v.vals)
+	}
+	for l, mx := range lens {
+		v := variable{name: "len:" + l, kind: 0}
+		for i := int64(0); i <= mx; i++ {
+			v.vals = append(v.vals, i)
+		}
+		vars = append(vars, v)
+		total *= len(v.vals)
+	}
+	for o := range opaques {
+		vars = append(vars, variable{name: o, kind: 1, vals: []int64{0, 1}})
+		total *= 2
+	}
+	if total > 200000 || total <= 0 {
+		return nil, false
+	}
+	live := make([]bool, len(conds))
+	idx := make([]int, len(vars))
+	env := &deadEnv{vals: map[string]int64{}, opaque: map[string]bool{}}
+	for {
+		for i, v := range vars {
+			if v.kind == 1 {
+				env.opaque[v.name] = v.vals[idx[i]] == 1
+			} else {
+				env.vals[v.name] = v.vals[idx[i]]
+			}
+		}
+		for j, cnd := range conds {
+			if s.evalCond(cnd, env) {
+				live[j] = true
+				break
+			}
+		}
+		k := len(vars) - 1
+		for ; k >= 0; k-- {
+			idx[k]++
+			if idx[k] < len(vars[k].vals) {
+				break
+			}
+			idx[k] = 0
+		}
+		if k < 0 {
+			break
+		}
+	}
+	var dead []int
+	for j, l := range live {
+		if !l {
+			dead = append(dead, j)
+		}
+	}
+	return dead, true
+}
+
+func (s *symCtx) hasLineEndingLeaf(e ast.Expr) bool {
+	var lv []symLeaf
+	s.leavesOf(e, &lv)
+	return len(lv) > 0
+}
+
+// ruleSymDead: see SYM-DEAD.
+func ruleSymDead(c *Ctx, s *symCtx) {
+	c.Rule("SYM-DEAD", "In package commonmark no arm of a tagless switch or if/else-if chain that classifies line-ending bytes is shadowed by earlier arms: for every arm there is an assignment to the compared operands, lengths and opaque sub-conditions under which it is the first true one (decided by enumerating that finite abstraction). A CRLF arm placed after a single-byte LF/CR arm is unreachable, so CRLF input is handled as a lone line ending plus a stray byte.")
+	n := 0
+	for _, file := range c.P.CM.Syntax {
+		if strings.HasSuffix(c.P.Fset.Position(file.Pos()).Filename, "_test.go") {
+			continue
+		}
+		var fname string
+		ast.Inspect(file, func(nd ast.Node) bool {
+			switch x := nd.(type) {
+			case *ast.FuncDecl:
+				fname = x.Name.Name
+				if x.Recv != nil && len(x.Recv.List) > 0 {
+					fname = recvTypeName(x.Recv.List[0].Type) + "." + fname
+				}
+			case *ast.SwitchStmt:
+				if x.Tag != nil {
+					return true
+				}
+				var conds []ast.Expr
+				relevant := false
+				for _, st := range x.Body.List {
+					cc := st.(*ast.CaseClause)
+					if len(cc.List) == 0 {
+						continue // default
+					}
+					// several expressions in one case are alternatives
+					var e ast.Expr = cc.List[0]
+					for _, more := range cc.List[1:] {
+						e = &ast.BinaryExpr{X: e, Op: token.LOR, Y: more}
+					}
+					conds = append(conds, e)
+					for _, ce := range cc.List {
+						if s.hasLineEndingLeaf(ce) {
+							relevant = true
+						}
+					}
+				}
+				if !relevant || len(conds) < 2 {
+					return true
+				}
+				n++
+				key := fmt.Sprintf("%s:switch#%d", fname, n)
+				dead, ok := s.deadArms(conds)
+				if !ok {
+					c.OK("SYM-DEAD", key, x.Pos(), "too many sub-conditions to enumerate; not decided (no claim)")
+					return true
+				}
+				var names []string
+				for _, d := range dead {
+					names = append(names, fmt.Sprintf("arm %d (%s)", d+1, types.ExprString(conds[d])))
+				}
+				c.Check(len(dead) == 0, "SYM-DEAD", key, x.Pos(), "unreachable arm(s), shadowed by earlier arms: "+strings.Join(names, "; "))
+			case *ast.IfStmt:
+				// only chain heads
+				if p, ok := s.parents[x].(*ast.IfStmt); ok && p.Else == ast.Stmt(x) {
+					return true
+				}
+				var conds []ast.Expr
+				relevant := false
+				for cur := x; cur != nil; {
+					conds = append(conds, cur.Cond)
+					if s.hasLineEndingLeaf(cur.Cond) {
+						relevant = true
+					}
+					next, _ := cur.Else.(*ast.IfStmt)
+					cur = next
+				}
+				if !relevant || len(conds) < 2 {
+					return true
+				}
+				n++
+				key := fmt.Sprintf("%s:if-chain#%d", fname, n)
+				dead, ok := s.deadArms(conds)
+				if !ok {
+					c.OK("SYM-DEAD", key, x.Pos(), "too many sub-conditions to enumerate; not decided (no claim)")
+					return true
+				}
+				var names []string
+				for _, d := range dead {
+					names = append(names, fmt.Sprintf("arm %d (%s)", d+1, types.ExprString(conds[d])))
+				}
+				c.Check(len(dead) == 0, "SYM-DEAD", key, x.Pos(), "unreachable arm(s), shadowed by earlier arms: "+strings.Join(names, "; "))
+			}
+			return true
+		})
+	}
+	if n < 1 {
+		c.Undecided("SYM-DEAD", "instance-count", token.NoPos, "no tagless switch or if-chain with line-ending tests found (1 confirmed by hand in collectCodeSpan)")
+	}
 }
